@@ -1004,6 +1004,20 @@ RReadData(a, f) ==
           /\ pc' = [pc EXCEPT ![a] = "r_return"]
   /\ UNCHANGED <<storageVars, clock, lockHolder, rlock, opi, att, faults, lease, ghostVars>>
 
+\* a storage call of a read fails (transient error): the read raises, whatever it had got so far is not an answer.
+\* In particular a failing read of the POINTER raises - it is not "pointer missing", which would send the reader to
+\* recovery-by-scanning and could surface an uncommitted metadata file of a commit in progress.
+RFault(a) ==
+  /\ Role[a] = "reader"
+  /\ faults > 0
+  /\ faults' = faults - 1
+  /\ IF pc[a] = "idle"
+     THEN /\ opi[a] <= Len(Prog[a])
+          /\ loc' = [loc EXCEPT ![a] = [EmptyLoc EXCEPT !.from = Len(commitLog), !.err = "raise", !.body = NoBody]]
+     ELSE loc' = [loc EXCEPT ![a].err = "raise"]
+  /\ pc' = [pc EXCEPT ![a] = "r_return"]
+  /\ UNCHANGED <<storageVars, clock, lockHolder, rlock, opi, att, lease, ghostVars>>
+
 RReturn(a) ==
   /\ \/ pc[a] = "r_return"
      \/ pc[a] = "r_data" /\ (loc[a].got = loc[a].rfiles \/ ~WantsData(a))
@@ -1317,6 +1331,7 @@ ReaderNext(a) ==
   \/ RReadList(a) \/ RReadManifest(a)
   \/ \E f \in loc[a].rfiles : RReadData(a, f)
   \/ RReturn(a)
+  \/ ("before" \in FaultKinds /\ RFault(a))
 
 OlderCommitted == {commitLog[k].name : k \in 1..(Len(commitLog) - 1)} \cup (IF Len(commitLog) > 0 /\ InitTable # "absent" THEN {InitName(InitSnaps)} ELSE {})
 DamageNext ==
@@ -1431,7 +1446,7 @@ ReadsNeverFail == \A i \in 1..Len(reads) : reads[i].err = "none"
 
 \* C02: reads through one handle never move backwards in commit order
 ReadsMonotone ==
-  \A i, j \in 1..Len(reads) : (i < j /\ Handle[reads[i].a] = Handle[reads[j].a]) =>
+  \A i, j \in 1..Len(reads) : (i < j /\ Handle[reads[i].a] = Handle[reads[j].a] /\ reads[i].err = "none" /\ reads[j].err = "none") =>
      \E k1 \in reads[i].from..reads[i].to, k2 \in reads[j].from..reads[j].to :
         k1 <= k2 /\ reads[i].files = CommittedCurFiles(k1) /\ reads[j].files = CommittedCurFiles(k2)
 
